@@ -129,6 +129,12 @@ def gen(rng, nm, na):
             reclose_then_own_line(rng, c)
         if j % 6 == 4:
             ctl.add_second(rng, c)       # two iterations on the same objects (reset_system between), the first ends mid-outage
+        if j % 6 == 2:
+            # units: the run is written in seconds / minutes / days, or the sectioning time is
+            if rng.random() < 0.5:
+                c["unit"] = rng.choice([1, 2, 4])
+            else:
+                c["spec"]["ctrl"]["T_unit"] = rng.choice([1, 2, 4])
     for j in range(na):
         c = ctl.gen_scenario(rng, max_lines=5, ctrl="main")
         if j % 5 == 4:
@@ -212,6 +218,11 @@ def gen(rng, nm, na):
                             c["faults"].setdefault(str(kk), []).append([f"IL{rng.randrange(len(ict['lines']))}", str(rng.choice([F(2), F(3), F(7, 2)]))])
         if j % 6 == 1:
             ctl.add_second(rng, c)
+        if j % 6 == 5:
+            if rng.random() < 0.5:
+                c["unit"] = rng.choice([1, 2, 4])
+            else:
+                c["spec"]["ctrl"]["T_unit"] = rng.choice([1, 2, 4])
         if c["spec"]["ctrl"]["type"] == "main" and rng.random() < 0.4:
             device_failures(rng, c)
         if c["spec"]["ctrl"]["type"] == "main" and rng.random() < 0.3:
